@@ -110,7 +110,14 @@ def run(ch, idx, tier):
         for par in list(ps2.pars.values())[:4]:
             par.meta_y_factor = 0.9
         try:
-            res_b = P.run_sim(ps2, None, None, result_name="second")
+            if ch.flip("second_result_other_dt", 0.6):
+                import sciris as _sc
+
+                P_b = _sc.dcp(P)
+                P_b.settings.update_time_vector(dt=P.settings.sim_dt * 2)
+                res_b = P_b.run_sim(ps2, None, None, result_name="second")
+            else:
+                res_b = P.run_sim(ps2, None, None, result_name="second")
         except at.BadInitialization:
             res_b = None
     blob = pickle.dumps(res)
@@ -226,8 +233,10 @@ def run(ch, idx, tier):
                 bump("query_refused")
             return None
         iso_b = {}
-        if isinstance(results_arg, list):
-            # the second result's answers must not depend on the first result being in the same call
+        if isinstance(results_arg, list) and ("t_bins" not in kw or isinstance(kw["t_bins"], list)):
+            # the second result's answers must not depend on the first result being in the same call (scalar / 'all'
+            # time bins are documented to be expanded from the data of the call, so with results of different time
+            # spans they are only compared when the bin edges are given explicitly)
             for ospec in outputs[:2]:
                 for pspec in pops_specs[:2]:
                     try:
